@@ -387,6 +387,35 @@ func (tr *vTrigRun) checkTriggers(ch int) {
 				tr.nearCut(i, nsamp, "level_near_cut")
 			}
 		}
+		// 2b. the zone between two domains at a change of lengths: the last npost(old) samples of the previous epoch were not
+		// examined under the old lengths, and they are examined under the new ones when the history kept for the old length
+		// (2*nsamp+10 samples) reaches npre(new) samples further back than they do. That is the case whenever
+		// npre(new) <= nsamp(old)+npre(old)+10 and the previous epoch delivered at least that much history.
+		if ep.lenChanged && ei > 0 && ts.EdgeTrigger {
+			old := tr.epochs[ei-1]
+			on, op := old.nsamp, old.npre
+			oldEnd := int(old.endFrame - f.firstFrame)
+			if npre <= on+op+10 && int(old.endFrame-old.startFrame) >= 2*on+10 && reflect.DeepEqual(old.set[ch].ts, *ts) {
+				zlo, zhi := oldEnd-(on-op), lo
+				if zlo < 3 {
+					zlo = 3
+				}
+				if zhi > hi {
+					zhi = hi
+				}
+				for i := zlo; i < zhi; i++ {
+					if crit.edge(i, ts) {
+						c.Cov("edge_satisfying_at_a_change_of_lengths", 1)
+						below, _ := nearest(i)
+						if !(below == i || (below < i && i <= below+nsamp)) {
+							c.Violate("c02:edge-missed", "channel %d: frame %d satisfies the edge criterion; it lies in the part of the stream that had not been examined when the record lengths changed from %d/%d to %d/%d at frame %d (epoch %d: %s), and it is neither a trigger nor within one record after a trigger (previous trigger at %d)",
+								ch, int(f.firstFrame)+i, op, on, npre, nsamp, int(f.firstFrame)+oldEnd, ei, ep.set[ch].desc, int(f.firstFrame)+below)
+							return
+						}
+					}
+				}
+			}
+		}
 		// 4. no overlap, edge-only epochs
 		if ts.EdgeTrigger && !ts.LevelTrigger && !ts.AutoTrigger {
 			for k := 1; k < len(epT); k++ {
@@ -607,7 +636,7 @@ func vRunTrigCase(c *vCase, prop string) {
 	}
 	reconfAt := map[int]string{}
 	for k := 0; k < nreconf && len(tr.blocks) > 2; k++ {
-		reconfAt[1+r.Intn(len(tr.blocks)-1)] = vPick(r, "trig", "trig", "len-same", "len-change", "npre-only")
+		reconfAt[1+r.Intn(len(tr.blocks)-1)] = vPick(r, "trig", "trig", "len-same", "len-change", "npre-only", "len-shrink")
 	}
 	if emtRaise && len(tr.blocks) > 2 {
 		reconfAt = map[int]string{}
@@ -677,6 +706,20 @@ func vRunTrigCase(c *vCase, prop string) {
 					}
 					ne.lenChanged = true
 					c.Cov("reconf_npre_only", 1)
+				}
+				if err := f.ds.ConfigurePulseLengths(ne.nsamp, ne.npre); err != nil {
+					c.Inconclusive("setup", "ConfigurePulseLengths(%d,%d) rejected: %v", ne.nsamp, ne.npre, err)
+					return
+				}
+			case "len-shrink":
+				// much shorter records: twice the new length is less than the part of the stream the old lengths had left unexamined
+				if emt := mode == "emt" || mode == "emtgroup"; emt || cur.nsamp-cur.npre < 30 {
+					ne.how = "len-same"
+				} else {
+					ne.nsamp = 5 + r.Intn((cur.nsamp-cur.npre-10)/2-4)
+					ne.npre = 3 + r.Intn(ne.nsamp-4)
+					ne.lenChanged = true
+					c.Cov("reconf_shrink", 1)
 				}
 				if err := f.ds.ConfigurePulseLengths(ne.nsamp, ne.npre); err != nil {
 					c.Inconclusive("setup", "ConfigurePulseLengths(%d,%d) rejected: %v", ne.nsamp, ne.npre, err)
@@ -796,8 +839,8 @@ func init() {
 		Run: func(c *vCase) { vRunTrigCase(c, "C02") },
 		Meta: vMeta{
 			Level: "exploration",
-			Rule:  "case as C01 without edge-multi/group; control history = settings restored from configuration or applied by ChangeTriggerState, then 0-3 reconfigurations (new trigger settings, ConfigurePulseLengths same/changed) between blocks; oracle = independent scan of the ground truth for the edge and level criteria per epoch (soundness, edge completeness with one-record dead time, level completeness within one record, no overlap for edge-only, auto gap bound); non-trivial = at least one primary emitted",
-			Assumptions: []string{"decidable domain of an epoch: from its first block (plus npre after a length change, and never before stream start + npre) to npost samples before its last delivered frame; samples outside are exempt",
+			Rule:  "case as C01 without edge-multi/group; control history = settings restored from configuration or applied by ChangeTriggerState, then 0-3 reconfigurations (new trigger settings, ConfigurePulseLengths same/changed/much shorter) between blocks; oracle = independent scan of the ground truth for the edge and level criteria per epoch (soundness, edge completeness with one-record dead time, level completeness within one record, no overlap for edge-only, auto gap bound); non-trivial = at least one primary emitted",
+			Assumptions: []string{"decidable domain of an epoch: from its first block (plus npre after a length change, and never before stream start + npre) to npost samples before its last delivered frame; samples outside are exempt, except at a change of lengths: the unexamined end of the previous epoch and the first npre samples of the new one are checked for edge completeness (dead time of the new length) whenever the history kept for the old length reaches far enough back (npre(new) <= nsamp(old)+npre(old)+10, previous epoch at least 2*nsamp(old)+10 frames long, same trigger settings)",
 				"dead time after a trigger T is T < i <= T+nsamp (inside a block the scan resumes at T+nsamp+1, across blocks at T+nsamp; both are readings of 'one-record dead time')"},
 			Guards: map[string]map[string]int{
 				"quick":    {"primaries": 3000, "edge_satisfying": 2000, "level_satisfying": 300, "edge_near_cut": 500, "crit_in_first_block": 30, "crit_after_reconfig": 30, "overlap_pairs": 100, "auto_gaps": 500, "sound_edge": 200, "sound_level": 100, "sound_auto": 200},
